@@ -150,6 +150,10 @@ def main(args):
     from contracts import layout
     pool.run_targets(run, "contracts.layout", list(layout.TARGETS))
     frame_obligations(run)
+    from contracts import attrs
+    pool.run_targets(run, "contracts.attrs", list(attrs.TARGETS))
+    for f in attrs.FUNCTIONS:
+        run.function("compiler.front_end.attribute_checker." + f, "pyvc: body executed symbolically against sidecar contract (contracts/attrs.py)")
     for f in ("_check_that_enum_values_are_representable", "_check_size_of_bits", "_check_physical_type_requirements (enum branch)"):
         run.function("compiler.front_end.constraints." + f, "pyvc: body executed symbolically against sidecar contract (contracts/layout.py)")
     cs = catalogue()
